@@ -6,6 +6,7 @@ word is `mem b s` (bit `s`), and `Spec.setOf b = mem b` is the plain set it deno
 Helper lemmas live in `Proofs/BB.lean`; this file holds only the property theorems.
 -/
 import ChessVerif.Proofs.BB
+import ChessVerif.Proofs.BitIter
 
 namespace Chess.Props.C18
 open Chess Chess.BB Chess.Spec
@@ -71,6 +72,18 @@ theorem nthBmi2_rest (n : Nat) (b : BB) (s : Sq) (h : (nthBmi2 n b).1 = some s) 
 /-! collection from iterators -/
 theorem mem_ofList (l : List Sq) (t : Sq) : mem (ofList l) t = l.contains t := BB.mem_ofList l t
 theorem mem_unionList (l : List BB) (t : Sq) : mem (unionList l) t = l.any (fun b => mem b t) := BB.mem_unionList l t
+
+/-! any interleaving of `next`, `nth(k)` and `size_hint` on ONE iterator -/
+
+/-- **operation sequences**: for every word, every sequence of `next` / `nth(k)` / `size_hint` calls on one
+`BitBoardIter` (up to the first `nth` that returns nothing) and both `nth` implementations, the outputs are those of the
+same operations on the ascending list of members — the size hint stays exact after `nth`, `next` after `nth(k)` yields the
+`(k+1)`-th element, and so on -/
+theorem runIter_refines (bmi2 : Bool) (ops : List IterOp) (b : BB) :
+    runIter bmi2 ops b = runIterList ops (toList b) := BB.runIter_refines bmi2 ops b
+
+example : runIter true [.nth 1, .hint, .next, .hint] 0x8000000000000105#64 =
+    [.sq (some 2), .size 2, .sq (some 8), .size 1] := by decide
 
 /-! Non-vacuity (tests) -/
 example : iterList 0x8000000000000005#64 = [0, 2, 63] := by decide
